@@ -7,12 +7,13 @@ package forwarder
 // connection loop (http.ReadRequest, scheme fix-up, modifier stack, upgrade handling) runs over scripted request
 // bytes; the next hop is a recording RoundTripper.
 //
-//vf:assume C01: header lists of <=2 fields drawn from a 26-entry pool of names (end-to-end, hop-by-hop, Connection with nominations, Via, X-Forwarded-*, User-Agent, Authorization) with symbolic 2-byte printable values where the value is free; methods GET/POST; absolute- and origin-form targets with an escaped query; HTTP/1.0 and 1.1; bodies: none / Content-Length / chunked in 1 or 2 chunks (3 symbolic bytes); first or second request of a keep-alive connection; directly or inside an intercepted (MITM) tunnel whose content is plaintext HTTP (the TLS handshake of a real interception and the upstream-proxy transport are outside)
+//vf:assume C01: header lists of <=2 fields drawn from a 26-entry pool of names (end-to-end, hop-by-hop, Connection with nominations, Via, X-Forwarded-*, User-Agent, Authorization) with symbolic 2-byte printable values where the value is free; methods GET/POST; absolute- and origin-form targets with an escaped query; HTTP/1.0 and 1.1; bodies: none / Content-Length / chunked in 1 or 2 chunks (3 symbolic bytes); first or second request of a keep-alive connection; with or without configured request header rules (-User-Agent, X-Rule: on); directly or inside an intercepted (MITM) tunnel whose content is plaintext HTTP (the TLS handshake of a real interception and the upstream-proxy transport are outside)
 //vf:assume C01: the next hop is a recording RoundTripper: what http.Transport does afterwards (Accept-Encoding: gzip, serialisation, connection reuse) and bodies near the 4 KiB / 32 KiB buffer sizes are outside
 
 import (
 	"strings"
 
+	"github.com/saucelabs/forwarder/header"
 	"github.com/saucelabs/forwarder/internal/martian"
 	"github.com/saucelabs/forwarder/internal/martian/mitm"
 	"github.com/saucelabs/forwarder/internal/vfrt"
@@ -76,7 +77,7 @@ func vfValues(sent []vfSent, name string) []string {
 	return vs
 }
 
-//vf:harness property=C01 nopanic reach=c01-first,c01-second,c01-body-cl,c01-body-chunked,c01-origin-form,c01-upgrade,c01-inside-mitm steps=8000000
+//vf:harness property=C01 nopanic reach=c01-first,c01-second,c01-body-cl,c01-body-chunked,c01-origin-form,c01-upgrade,c01-inside-mitm,c01-header-rules steps=8000000
 func vfH_C01_pipe() { vfC01Scenario(false) }
 
 //vf:assume C01-tls: the same requests inside an intercepted tunnel that starts with a TLS hello: crypto/tls is modelled as a transparent layer (one record consumed, handshake succeeds, bytes pass through), so the requests take the decrypted-tunnel path (secure session: https scheme, X-Forwarded-Proto https); field pool and bodies as above, shapes: GET first request / chunked POST as second request; certificates and real records are outside; model-only
@@ -88,6 +89,14 @@ func vfC01Scenario(tlsSession bool) {
 	cfg := HTTPProxyConfig{}
 	cfg.Name = "fw"
 	cfg.ProxyLocalhost = AllowProxyLocalhost
+	// configured request header rules (as command/run builds them): optionally "-User-Agent" and an added field
+	rulesOn := vfrt.Choice("header-rules-configured", 2) == 1
+	if rulesOn {
+		vfrt.Reach("c01-header-rules")
+		r1, _ := header.ParseHeader("-User-Agent")
+		r2, _ := header.ParseHeader("X-Rule: on")
+		cfg.RequestModifiers = []martian.RequestModifier{header.Headers{r1, r2}}
+	}
 	hp := vfNewHTTPProxy(cfg)
 	rt := hp.transport.(*vfRoundTripper)
 
@@ -260,6 +269,11 @@ func vfC01Scenario(tlsSession bool) {
 			vfrt.Assert(strings.HasPrefix(strings.Join(hdr["Via"], ", "), strings.Join(vals, ", ")+", "), "c01/earlier-via-elements-kept")
 		case "X-Forwarded-For":
 			vfrt.Assert(strings.Join(hdr["X-Forwarded-For"], ", ") == strings.Join(vals, ", ")+", 192.0.2.1", "c01/earlier-forwarded-for-kept-and-client-appended")
+		case "User-Agent":
+			if rulesOn {
+				continue // removed by the configured rule (checked below)
+			}
+			fallthrough
 		default:
 			h := hdr[name]
 			same := len(h) == len(vals)
@@ -292,15 +306,24 @@ func vfC01Scenario(tlsSession bool) {
 	if len(vfValues(sent, "X-Forwarded-Url")) == 0 {
 		vfrt.Assert(hdr.Get("X-Forwarded-Url") != "", "c01/forwarded-url-filled")
 	}
-	if len(vfValues(sent, "User-Agent")) == 0 {
+	if len(vfValues(sent, "User-Agent")) == 0 || rulesOn {
+		// absent (or removed by a configured rule): the key stays present with an empty value, which is what keeps
+		// http.Transport from inventing its default User-Agent
 		ua, present := hdr["User-Agent"]
 		vfrt.Assert(present && len(ua) == 1 && ua[0] == "", "c01/no-user-agent-invented")
+	}
+	if rulesOn {
+		vfrt.Assert(len(hdr["X-Rule"]) == 1 && hdr["X-Rule"][0] == "on", "c01/configured-header-rules-applied")
 	}
 	// nothing else appears
 	for name := range hdr {
 		switch name {
 		case "Via", "X-Forwarded-For", "X-Forwarded-Proto", "X-Forwarded-Host", "X-Forwarded-Url", "User-Agent", "Content-Length":
 			continue
+		case "X-Rule":
+			if rulesOn {
+				continue
+			}
 		}
 		if upgrade != "" && (name == "Upgrade" || name == "Connection") {
 			continue
